@@ -522,11 +522,19 @@ func hashConc(cs concCase, picks []int) uint64 {
 }
 
 // runFree runs one part B case: tasks start together behind a barrier and are joined, nothing else orders them.
-func (s concurrent) runFree(c *Ctx, cs concCase, solo []string) {
+func (s concurrent) runFree(c *Ctx, cs concCase, soloFn func() []string) {
 	reps := cs.Reps
 	if reps < 1 {
 		reps = 1
 	}
+	// The free runs come first and the solo baseline afterwards: whatever ion-go initialises lazily (per type, per
+	// table, per catalog, per process) is still cold when the tasks meet, which is when such state is written.
+	var solo []string
+	type repOut struct {
+		outs          []string
+		before, after string
+	}
+	var all []repOut
 	for rep := 0; rep < reps; rep++ {
 		w := drive.BuildIonWorld(cs.World)
 		before := w.Digest()
@@ -546,6 +554,11 @@ func (s concurrent) runFree(c *Ctx, cs concCase, solo []string) {
 		after := w.Digest()
 		c.Count("free.task-set-runs", 1)
 		c.Steps += int64(len(cs.Tasks))
+		all = append(all, repOut{outs, before, after})
+	}
+	solo = soloFn()
+	for _, ro := range all {
+		outs, before, after := ro.outs, ro.before, ro.after
 		for i := range outs {
 			if outs[i] != solo[i] {
 				c.Report("C18", "C18.O", "C18.O/"+taskClass(cs.Tasks[i])+"/free", fmt.Sprintf("task %d (%s) output differs from its solo baseline when run free with %d other tasks: %s", i, taskClass(cs.Tasks[i]), len(cs.Tasks)-1, firstDiff(outs[i], solo[i])), cs)
@@ -563,33 +576,37 @@ func (s concurrent) Run(c *Ctx, i int) {
 		c.Count("task."+taskClass(t), 1)
 	}
 	c.Count("tasks.per-set."+fmt.Sprint(len(cs.Tasks)), 1)
-	solo := soloOutputs(cs)
-	again := soloOutputs(cs)
-	for k := range solo {
-		if solo[k] != again[k] {
-			// the task itself is not a deterministic function of its inputs: a harness defect, never a violation
-			panic(fmt.Sprintf("concurrent: task %d (%s) is not deterministic when run alone twice: %s", k, taskClass(cs.Tasks[k]), firstDiff(solo[k], again[k])))
+	soloFn := func() []string {
+		solo := soloOutputs(cs)
+		again := soloOutputs(cs)
+		for k := range solo {
+			if solo[k] != again[k] {
+				// the task itself is not a deterministic function of its inputs: a harness defect, never a violation
+				panic(fmt.Sprintf("concurrent: task %d (%s) is not deterministic when run alone twice: %s", k, taskClass(cs.Tasks[k]), firstDiff(solo[k], again[k])))
+			}
+			if strings.Contains(solo[k], "\nPANIC ") {
+				c.Count("solo.task-panicked", 1)
+			}
 		}
-		if strings.Contains(solo[k], "\nPANIC ") {
-			c.Count("solo.task-panicked", 1)
-		}
-	}
-	if i < 3 {
-		var kinds []string
-		for _, t := range cs.Tasks {
-			kinds = append(kinds, taskClass(t))
-		}
-		c.Sample(map[string]interface{}{"index": i, "tasks": kinds, "views": cs.World.Views, "solo_output_0": trunc(solo[0], 300)})
+		return solo
 	}
 	if FreeMode() {
 		fmt.Fprintf(os.Stderr, "##INDEX %d\n", i)
 		cs.Free = true
 		cs.Reps = 3
 		c.Ahead(cs)
-		s.runFree(c, cs, solo)
+		s.runFree(c, cs, soloFn)
 		c.Count("free.indices", 1)
 		c.DistinctU(hashConc(cs, nil))
 		return
+	}
+	solo := soloFn()
+	if i < 3 {
+		var kinds []string
+		for _, t := range cs.Tasks {
+			kinds = append(kinds, taskClass(t))
+		}
+		c.Sample(map[string]interface{}{"index": i, "tasks": kinds, "views": cs.World.Views, "solo_output_0": trunc(solo[0], 300)})
 	}
 	r := prng.New(prng.Mix(c.Seed, 1818, uint64(i)))
 	for q := 0; q < 4; q++ {
@@ -641,12 +658,12 @@ func (s concurrent) Replay(c *Ctx, caseJSON []byte) error {
 		}
 		return fmt.Errorf("not a concurrent case")
 	}
-	solo := soloOutputs(cs)
 	if cs.Free {
 		fmt.Fprintf(os.Stderr, "##INDEX %d\n", 0)
-		s.runFree(c, cs, solo)
+		s.runFree(c, cs, func() []string { return soloOutputs(cs) })
 		return nil
 	}
+	solo := soloOutputs(cs)
 	ep := &sim.ExplicitPicks{List: cs.Picks}
 	s.runScheduled(c, cs, ep.Pick, solo)
 	return nil
